@@ -192,4 +192,14 @@ class SQLDumper(DumperBase):
         for field in schema['fields']:
             if dialect == 'sqlite' and field['type'] in ['object', 'array']:
                 field['type'] = 'string'
+            # The rows have been validated already. Only the constraints that translate into
+            # well-formed DDL go to the database (enum / minimum / maximum ... become broken CHECK
+            # clauses, length constraints of an array would apply to its JSON text)
+            constraints = field.get('constraints')
+            if isinstance(constraints, dict):
+                kept = dict((k, v) for k, v in constraints.items() if k in ('required', 'unique'))
+                if kept:
+                    field['constraints'] = kept
+                else:
+                    del field['constraints']
         return schema
